@@ -95,11 +95,13 @@ func listItems(prop, tier string) []Item {
 func seqJobList(prop, tier string) []*SeqJob {
 	switch prop {
 	case "C01":
-		return append(c01SeqJobs(tier), metricsPerScopeSweep("C01", "size-sweep-counters-and-histograms-per-scope", tier, map[string]bool{"counter": true, "histogram": true}))
+		return append(c01SeqJobs(tier), metricsPerScopeSweep("C01", "size-sweep-counters-and-histograms-per-scope", tier, map[string]bool{"counter": true, "histogram": true}), bothReportersJob("C01", tier))
 	case "C07":
-		return []*SeqJob{c07SeqJob(tier), scopesPerRegistrySweep(tier)}
+		return []*SeqJob{c07SeqJob(tier), scopesPerRegistrySweep(tier), bothReportersJob("C07", tier)}
+	case "C08":
+		return []*SeqJob{bothReportersJob("C08", tier)}
 	case "C02":
-		return append(c02SeqJobs(tier), metricsPerScopeSweep("C02", "size-sweep-gauges-per-scope", tier, map[string]bool{"gauge": true}))
+		return append(c02SeqJobs(tier), metricsPerScopeSweep("C02", "size-sweep-gauges-per-scope", tier, map[string]bool{"gauge": true}), bothReportersJob("C02", tier))
 	case "C03":
 		return c03Jobs(tier)
 	case "C06":
@@ -109,7 +111,7 @@ func seqJobList(prop, tier string) []*SeqJob {
 	case "C05":
 		return append(c05Jobs(tier), tagChainSweep("C05", "size-sweep-tag-chain", tier, false))
 	case "C10":
-		return c10Jobs(tier)
+		return append(c10Jobs(tier), bothReportersJob("C10", tier))
 	case "C11":
 		return append(c11Jobs(tier), tagChainSweep("C11", "size-sweep-tag-chain-on-a-test-scope", tier, true))
 	case "C20":
